@@ -113,6 +113,46 @@ Theorem C19_mode_cmd_failure_inert : forall c today t, in_date_range today ->
 Proof. exact mode_cmd_failure_inert. Qed.
 Print Assumptions C19_mode_cmd_failure_inert.
 
+(* ---------------------------------------------- instants and time zones *)
+
+(* The commands run at an instant (Unix seconds) in a process with a local
+   zone `off` seconds east of UTC (Model/Cli: cli_run_at).  The zone has no
+   influence ... *)
+Theorem C19_zone_independent : forall c now off1 off2 t,
+  cli_run_at c now off1 t = cli_run_at c now off2 t.
+Proof. exact run_at_zone_independent. Qed.
+Print Assumptions C19_zone_independent.
+
+(* ... the date a writing mode command records, and a later read reports, is
+   the UTC date of the instant (instants of years 0000..9999), in every zone,
+   including the hours at which the local calendar date is another one. *)
+Theorem C19_mode_cmd_records_utc_date : forall m now off t, in_instant_range now ->
+  fst (cli_read_mode t) <> mode_str m -> mode_is_dir t = false ->
+  snd (cli_run_at (CMode m) now off t) = true /\
+  cli_read_mode (fst (cli_run_at (CMode m) now off t)) = (mode_str m, Some (now / 86400)%Z).
+Proof. exact mode_cmd_records_utc_date. Qed.
+Print Assumptions C19_mode_cmd_records_utc_date.
+
+Theorem C19_oracle_accepts_model_at : forall c now off t, in_instant_range now -> root_names_unique t ->
+  dir_diff_ok c (utc_day now) t (fst (cli_run_at c now off t)) (snd (cli_run_at c now off t)) = true.
+Proof. exact oracle_accepts_model_at. Qed.
+Print Assumptions C19_oracle_accepts_model_at.
+
+(* UTC-12 at 00:00 UTC and UTC+14 at 10:00 UTC: the local date is not the UTC date *)
+Example C19_example_date_line :
+  local_day 0 (-43200) <> utc_day 0 /\ local_day 36000 50400 <> utc_day 36000.
+Proof. exact local_date_differs. Qed.
+
+(* ------------------------------------------------------ no directory *)
+
+(* When os.UserConfigDir() fails the commands have no directory (the zero Dir):
+   the model (cli_run_nodir) has no tree to change - nothing may be touched
+   anywhere, which the suite checks on the working directory - the mode in force
+   is "off", and a mode command succeeds exactly when it asks for that. *)
+Theorem C19_nodir_mode_cmd_ok : forall m, cli_run_nodir (CMode m) = true <-> mode_str m = lit_off.
+Proof. exact nodir_mode_cmd_ok. Qed.
+Print Assumptions C19_nodir_mode_cmd_ok.
+
 (* ------------------------------------ histories of all five commands *)
 
 (* In any history of on/local/off/clean/env the mode path evolves exactly as
